@@ -10,6 +10,9 @@ from values import *
 from ir import walk
 
 
+LOOP_DEPS = {}      # (function, loop) -> leaves the loop may depend on (per entry point)
+
+
 def modified_roots(I, body_nodes, fr):
     """Local ids (within frame) that the loop body may write."""
     roots = set()
@@ -499,6 +502,33 @@ def run_loop(I, st, fr, site, roots, run_body, what, extra_values=()):
         cands = [c for i, c in enumerate(cands) if i not in failed]
     import loop_specs
     loop_specs.check(I, fr, lname, names, entry, fresh, head, outs)
+    # what the loop reads (may-depend set of its summarised variables): leaves mentioned by the decisions taken in
+    # one iteration and by the values it leaves in the loop-carried variables
+    try:
+        import spec_checks
+        deps = set()
+        n0 = len(head.lin.facts)
+        for (s, v, ctl) in outs:
+            for (k_, p_) in s.lin.facts[n0:]:
+                spec_checks.leaves_of(p_, deps)
+            for (x_, y_, _) in s.tne:
+                spec_checks.leaves_of(x_, deps)
+                spec_checks.leaves_of(y_, deps)
+            for (x_, y_) in s.teq[len(head.teq):]:
+                spec_checks.leaves_of(x_, deps)
+                spec_checks.leaves_of(y_, deps)
+            for (key_, pol_) in s.unk:
+                spec_checks.leaves_of(key_, deps)
+            for r, (place, v0) in entry.items():
+                try:
+                    spec_checks.value_deps(I.read_place(s, place), deps)
+                except Exception:
+                    pass
+        for r, (place, v0) in entry.items():
+            spec_checks.value_deps(v0, deps)
+        LOOP_DEPS[lname] = deps
+    except Exception:
+        pass
     I.loop_info.append({"fn": lname[0], "loop": lname[1], "what": what, "iterations": it,
                         "invariants": [fmt_cand(c) for c in cands if c[0] != "nat_ge"]})
     exits = [(s, UNIT, None) for (s, v, ctl) in outs if ctl == "break"]
@@ -656,6 +686,21 @@ def for_loop(I, e, st, fr):
                     res.extend(I.ev(body_expr, s2, fr))
             return res
         head, exits, others = run_loop(I, s0, fr, e, roots, body, "for", extra_values=[itv])
+        if isinstance(itv, VMutRef):
+            # iteration by mutable reference outside the summarised idioms: what the body wrote through the element
+            # reference is not tracked, so the iterated sequence is unknown afterwards (same length)
+            fr.loop_ix += 0
+            for s_ in [head] + [x[0] for x in exits] + [x[0] for x in others]:
+                try:
+                    place, cur = lax_model.place_of(I, s_, itv)
+                    if isinstance(cur, VSeq):
+                        lf = leaf(("loopvar", (fr.fn["path"] if fr.fn else "?", "loop%d" % fr.loop_ix, "iter_mut"), str(place[1])))
+                        s_.add_eq(t_len(lf) - t_len(cur.t))
+                        if lax_model.LIST_ELEM.get(cur.t):
+                            lax_model.LIST_ELEM[lf] = lax_model.LIST_ELEM[cur.t]
+                        I.write_place(s_, place, VSeq(lf))
+                except Exception:
+                    pass
         # the loop may run zero or more times: the abstract head state covers every exit
         out.append((head, UNIT, None))
         out.extend(exits)
